@@ -186,4 +186,10 @@ var semaStressProp = vp.Register(vp.Prop[SemaCase]{
 })
 
 func TestStressOnce(t *testing.T) { vp.Run(t, onceStressProp) }
+
+// TestStressTwins: several independent constructors / semaphores at once.
+func TestStressTwins(t *testing.T) {
+	vp.RunConcurrent(t, onceStressProp, 60, 2, 2)
+	vp.RunConcurrent(t, semaStressProp, 60, 2, 2)
+}
 func TestStressSema(t *testing.T) { vp.Run(t, semaStressProp) }
